@@ -1,9 +1,59 @@
-"""replay: print a recorded violation and re-run the owning check's monitor on the witness where possible."""
-import json
+"""replay: re-execute the witness of a recorded violation against the library built from the current tree.
+
+Call-shaped witnesses ("CS_Total_CP('Es2O3',10)", "Crystal_dSpacing(Si,1,1,1)") are re-run in a single process through the
+ctypes binding in both data configurations and the outcome is printed; history/interleaving witnesses print the recorded
+prefix and the command (with seed) that regenerates the same history.
+"""
+import json, re, ast
+
+
+def _parse_call(s):
+    m = re.match(r"^\s*([A-Za-z_][A-Za-z0-9_:]*)\((.*)\)\s*$", s)
+    if not m:
+        return None
+    name, args = m.group(1), m.group(2)
+    out = []
+    for a in re.findall(r"'(?:[^'\\]|\\.)*'|[^,]+", args):
+        a = a.strip()
+        if a == 'NULL':
+            out.append(None)
+        elif a.startswith("'"):
+            out.append(a[1:-1])
+        else:
+            try:
+                v = ast.literal_eval(a)
+            except Exception:
+                return None
+            out.append(v)
+    return name, out
 
 
 def main(path):
     r = json.load(open(path))
-    print(json.dumps(r, indent=1))
-    print('to re-run: bin/xv check %s --tier %s  (VERIF_SEED=%s)' % (r['property'], r.get('tier', 'quick'), r.get('seed', 1)))
+    print('property %s  key %s' % (r['property'], r['key']))
+    print('what: %s' % r['what'])
+    w = r.get('witness')
+    call = None
+    if isinstance(w, dict):
+        call = w.get('call') or w.get('witness')
+    if isinstance(call, str):
+        pc = _parse_call(call)
+        if pc:
+            from . import xl
+            name, args = pc
+            for cfg in ('shipped', 'kissel'):
+                X = xl.XL(cfg)
+                try:
+                    if not hasattr(X.lib, name):
+                        print('  [%s] %s is not a plain C entry point: see the witness below' % (cfg, name)); break
+                    if name in ('CompoundParser',):
+                        res = X.parse(args[0])
+                    else:
+                        res = X.num(name, *[float(a) if isinstance(a, float) else a for a in args])
+                    print('  [%s] %s -> %r' % (cfg, call, res))
+                except Exception as e:     # argument shapes the generic binding cannot express (crystal handles ...)
+                    print('  [%s] cannot re-run generically (%s): see the witness below' % (cfg, e)); break
+    print('witness:')
+    print(json.dumps(w, indent=1, default=str)[:4000])
+    print('re-run the owning monitor with the same seed:  VERIF_SEED=%s bin/xv check %s --tier %s' % (r.get('seed', 1), r['property'], r.get('tier', 'quick')))
     return 0
